@@ -805,3 +805,49 @@ func (g *genCtx) tmplDescendantCycle() {
 	}
 	g.simpleInvoke([]int{parent, child}[g.r.Intn(2)], []int{k2}, "descendant-cycle")
 }
+
+// tmplDescendantCycleGroup: a group feeder provided to an ancestor is rejected
+// because it closes a cycle only in a descendant's view (the descendant
+// privately builds the feeder's dependency from the group); the group is then
+// consumed from both scopes.
+func (g *genCtx) tmplDescendantCycleGroup() {
+	if g.ft.NT < 2 || len(g.ft.Groups) == 0 {
+		return
+	}
+	g.ensureScopes(2)
+	p := g.r.Perm(g.ft.NT)
+	a, m := p[0], p[1]
+	grp := g.group()
+	child := 1 + g.r.Intn(len(g.m.S)-1)
+	parent := g.m.S[child].Parent
+	// an honest feeder first
+	f0 := g.newFunc(RoleCtor)
+	f0.Results = []Result{{Kind: RSingle, T: m}}
+	f0.OptGroup = grp
+	i := g.addOp(Op{Kind: OpProvide, Scope: parent, Fn: f0.ID, Tag: "desc-cycle-group"})
+	if g.m.PredictProvide(parent, f0) == PredOK {
+		g.m.AddCtor(parent, i, f0)
+	}
+	// child: *A built from the group
+	f1 := g.newFunc(RoleCtor)
+	f1.Params = []Param{{Kind: PObj, Fields: []Param{{Kind: PGroup, T: m, Group: grp}}}}
+	f1.Results = []Result{{Kind: RSingle, T: a}}
+	i = g.addOp(Op{Kind: OpProvide, Scope: child, Fn: f1.ID, Tag: "desc-cycle-group"})
+	if g.m.PredictProvide(child, f1) == PredOK {
+		g.m.AddCtor(child, i, f1)
+	}
+	// parent: a feeder of the group that needs *A: cyclic in the child's view only
+	f2 := g.newFunc(RoleCtor)
+	f2.Params = []Param{{Kind: PSingle, T: a}}
+	f2.Results = []Result{{Kind: RSingle, T: m}}
+	f2.OptGroup = grp
+	i = g.addOp(Op{Kind: OpProvide, Scope: parent, Fn: f2.ID, Tag: "desc-cycle-group"})
+	if g.m.PredictProvide(parent, f2) == PredOK {
+		g.m.AddCtor(parent, i, f2)
+	}
+	for _, s := range []int{parent, child} {
+		f := g.newFunc(RoleInv)
+		f.Params = []Param{{Kind: PObj, Fields: []Param{{Kind: PGroup, T: m, Group: grp}}}}
+		g.addOp(Op{Kind: OpInvoke, Scope: s, Fn: f.ID, Tag: "desc-cycle-group"})
+	}
+}
